@@ -8,7 +8,11 @@ def auditNamespace (ns : Name) : CommandElabM Unit := do
   let env ← getEnv
   let mut names : Array Name := #[]
   for (n, ci) in env.constants.toList do
-    if ns.isPrefixOf n && !n.isInternal then
+    -- (auto-generated equation / injectivity / sizeOf lemmas of structures are not proof obligations)
+    let str := n.toString
+    let auto := (str.splitOn ".injEq").length > 1 || (str.splitOn ".sizeOf_spec").length > 1 || (str.splitOn ".inj").length > 1 ||
+      (str.splitOn ".eq_").length > 1 || (str.splitOn "match_").length > 1 || (str.splitOn ".noConfusion").length > 1 || (str.splitOn "._").length > 1
+    if ns.isPrefixOf n && !n.isInternal && !auto then
       match ci with
       | .thmInfo _ => names := names.push n
       | _ => pure ()
